@@ -1,6 +1,8 @@
 use std::{
+    ffi::OsString,
     fs,
     io::{self, IsTerminal, Read, Write},
+    path::Path,
     process::exit,
 };
 
@@ -36,6 +38,36 @@ fn read_stdin_to_string() -> io::Result<String> {
     let mut s = String::new();
     io::stdin().read_to_string(&mut s)?;
     Ok(s)
+}
+
+/// Replace the content of `path` without ever exposing a truncated or partially written file:
+/// the new content is written to a temporary file in the same directory, flushed to disk and
+/// then renamed over the target. If anything fails the temporary file is removed and the
+/// target keeps its previous content.
+fn write_file_atomically(path: &Path, contents: &[u8]) -> io::Result<()> {
+    // Write through symlinks instead of replacing the link itself.
+    let target = fs::canonicalize(path)?;
+    let file_name = target
+        .file_name()
+        .ok_or_else(|| io::Error::new(io::ErrorKind::InvalidInput, "path has no file name"))?;
+    let mut tmp_name = OsString::from(".");
+    tmp_name.push(file_name);
+    tmp_name.push(format!(".luafmt-{}.tmp", std::process::id()));
+    let tmp_path = target.with_file_name(tmp_name);
+
+    let result = (|| {
+        let mut file = fs::File::create(&tmp_path)?;
+        file.set_permissions(fs::metadata(&target)?.permissions())?;
+        file.write_all(contents)?;
+        file.sync_all()?;
+        drop(file);
+        fs::rename(&tmp_path, &target)
+    })();
+
+    if result.is_err() {
+        let _ = fs::remove_file(&tmp_path);
+    }
+    result
 }
 
 fn format_unified_diff(
@@ -332,7 +364,8 @@ fn main() {
                         }
                     }
                 } else if args.write {
-                    if changed && let Err(e) = fs::write(path, formatted) {
+                    if changed && let Err(e) = write_file_atomically(path, formatted.as_bytes())
+                    {
                         eprintln!("Failed to write {}: {e}", path.to_string_lossy());
                         exit_code = 2;
                     }
